@@ -37,7 +37,9 @@ var (
 // StartCanary builds a Canary on the real `lo` interface (so the unmodified
 // isMe() treats 127.0.0.1 as "me"). tables: "direct" = ARP entries for the
 // given peers (+ default route and gateway entry), "gateway" = only a default
-// route and an ARP entry for its gateway, "none" = neither. With loop=true the
+// route and an ARP entry for its gateway, "none" = neither, "route-only" = a
+// default route through an unresolved gateway, "onlink" = a 0.0.0.0-gateway
+// route only, "mixed" = some peers resolved, some behind an unresolved gateway. With loop=true the
 // real Start() receive loop and knock detector run.
 func StartCanary(id, tables string, peers []net.IP, loop bool) (*CanaryHost, error) {
 	ifc, err := net.InterfaceByName("lo")
@@ -59,6 +61,26 @@ func StartCanary(id, tables string, peers []net.IP, loop bool) (*CanaryHost, err
 		rt = append(rt, def)
 	case "gateway":
 		ac = append(ac, canary.ARPEntry{IP: GwIP, HardwareAddress: GwMAC, Interface: "lo"})
+		rt = append(rt, def)
+	case "route-only":
+		// a default route whose gateway was never resolved: no ARP entry at all
+		rt = append(rt, def)
+	case "onlink":
+		// the on-link route of the interface (gateway 0.0.0.0), peers unresolved
+		rt = append(rt, canary.Route{Interface: "lo", Gateway: net.IPv4(0, 0, 0, 0), Destination: net.IPNet{IP: net.IPv4(0, 0, 0, 0), Mask: net.IPv4Mask(0, 0, 0, 0)}})
+	case "mixed":
+		// every other peer resolved; a narrower route through an unresolved gateway in front of the default route
+		for i, p := range peers {
+			if i%2 == 1 {
+				ac = append(ac, canary.ARPEntry{IP: p, HardwareAddress: PeerMAC, Interface: "lo"})
+			}
+		}
+		ac = append(ac, canary.ARPEntry{IP: GwIP, HardwareAddress: GwMAC, Interface: "lo"})
+		for i, p := range peers {
+			if i%4 == 0 {
+				rt = append(rt, canary.Route{Interface: "lo", Gateway: net.IPv4(10, 255, 0, 9), Destination: net.IPNet{IP: p.Mask(net.CIDRMask(24, 32)), Mask: net.CIDRMask(24, 32)}})
+			}
+		}
 		rt = append(rt, def)
 	case "none":
 	default:
